@@ -10,7 +10,8 @@ from hv import Case
 from kern2 import Snap, area2, cross3, fr_tok
 
 SPEC = {
-    "lean_modules": ["Honeycomb.Props.C13", "Honeycomb.Props.C13b", "Honeycomb.Props.C13c", "Honeycomb.Props.C13d"],
+    "lean_modules": ["Honeycomb.Props.C13", "Honeycomb.Props.C13b", "Honeycomb.Props.C13c", "Honeycomb.Props.C13d",
+                     "Honeycomb.Props.C13e"],
     "required_theorems": ["C13_check_requirements_ok_iff", "C13_shoelace_step", "C13_earclip_area_sum",
                           "C13_fan_area_sum", "C13_fan_star_sees_every_side", "C13_fan_apex_sees_all",
                           "C13_earclip_preserves_WF", "C13_fan_preserves_WF", "C13_fan_convex_preserves_WF",
@@ -19,7 +20,11 @@ SPEC = {
                           "C13_fan_test_iff", "C13_fan_first_side_weak_witness",
                           "C13_fan_triangles_carry_list_coordinates", "C13_fan_area_conserved_in_map",
                           "C13_fan_orientation_in_map", "C13_fan_old_vertices_keep_coordinates",
-                          "C13_fan_convex_triangles_carry_list_coordinates"],
+                          "C13_fan_convex_triangles_carry_list_coordinates",
+                          "C13_earclip_triangles_carry_list_coordinates", "C13_earclip_area_conserved_in_map",
+                          "C13_earclip_orientation_in_map", "C13_earclip_ccw_orientation_in_map",
+                          "C13_earclip_cw_orientation_in_map", "C13_earclip_old_vertices_keep_coordinates",
+                          "C13_fan_accepts_convex_ccw", "C13_fan_accepts_convex_cw"],
     "trusted_base": [
         "Lean 4.33 kernel; axioms propext, Classical.choice, Quot.sound only",
         "hand-written model Honeycomb/Model/Kernels/{Geom2,Fan,EarClip}.lean (+ Stm, Map, Ops, Ops2) tied to /repo by the "
@@ -31,12 +36,14 @@ SPEC = {
     ],
     "assumptions": [
         "the theorems on areas/orientation are about the vertex-list computations (ear search, list surgery, star search) shared by "
-        "the model kernels; the map surgery is treated in Props/C13b.lean (WF, exact face structure of the fans); for the two FAN "
-        "kernels Props/C13d.lean proves that the dart triangles of the result map, corners read through the result's vertex ids, "
-        "carry exactly those vertex-list triangles (hence area sum and orientation hold in the map); for ear clipping this tie is "
-        "validated by the oracle, not proved",
-        "C13d (coordinates in the result map): the spare darts are fresh — free (all beta null) and without a vertex value —, the "
-        "vertex storage merges with Vertex2's average (cfg.law 0 = avgLaw), no injected failure (fc = 0)",
+        "the model kernels; the map surgery is treated in Props/C13b.lean / C13c.lean (WF, exact face structure); Props/C13d.lean "
+        "(fan kernels) and Props/C13e.lean (ear clipping) prove that the dart triangles of the result map, corners read through "
+        "the result's vertex ids, carry exactly those vertex-list triangles, in order (hence area sum and orientation hold in "
+        "the map), and that every dart other than the spare darts keeps its coordinates",
+        "C13d/C13e (coordinates in the result map): the spare darts are fresh — free (all beta null) and without a vertex value —, "
+        "the vertex storage merges with Vertex2's average (cfg.law 0 = avgLaw), no injected failure (fc = 0); C13e also inherits "
+        "EarsNotLast from C13_earclip_structure and needs an orientation test that rejects triples with equal end points (true of "
+        "both public tests, insideCCW_ends_differ / insideCW_ends_differ: a vanishing cross product is never accepted)",
         "fan WF/structure theorems: the face is a closed beta1-cycle (necessary: on an open chain the final 1-sew can write beta1(0))",
         "spare darts are distinct free in-use darts",
     ],
@@ -55,11 +62,15 @@ SPEC = {
         "frame) under the hypothesis EarsNotLast (the ear is never found at the last index of the vertex list): necessary — for "
         "ear = n-1 the kernel's vector surgery drops the wrong dart — and true on simple polygons by the two-ears theorem, which is "
         "not proved",
-        "that the triangles of the map surgery carry the coordinates of the vertex-list triangles: PROVED for fan_cell and "
-        "fan_convex_cell with fresh spare darts (C13_fan_triangles_carry_list_coordinates, C13_fan_area_conserved_in_map, "
-        "C13_fan_orientation_in_map, C13_fan_old_vertices_keep_coordinates, C13_fan_convex_triangles_carry_list_coordinates); NOT "
-        "proved for ear clipping (earclipTriangles; oracle only) nor for spare darts that already carry links or a vertex value",
-        "the last remaining triangle of ear clipping has the announced orientation (the code does not test it; follows from simplicity)",
+        "that the triangles of the map surgery carry the coordinates of the vertex-list triangles is PROVED for all kernels with "
+        "fresh spare darts (C13_fan_*_in_map / C13_fan_triangles_carry_list_coordinates / "
+        "C13_fan_convex_triangles_carry_list_coordinates; C13_earclip_triangles_carry_list_coordinates, "
+        "C13_earclip_area_conserved_in_map, C13_earclip_orientation_in_map, C13_earclip_old_vertices_keep_coordinates); NOT proved "
+        "for spare darts that already carry links or a vertex value",
+        "the last remaining triangle of ear clipping has the announced orientation: the code does not test it; "
+        "C13_earclip_orientation_in_map proves, in the result map, that every CLIPPED ear passes the announced test and that the "
+        "last triangle's doubled area is the polygon's minus the ears' — its sign follows on a simple polygon of the announced "
+        "orientation, which is not proved",
         "the first side examined by the fan's star search is only sign-tested by the code: C13_fan_test_iff states exactly what is "
         "guaranteed, C13_fan_first_side_weak_witness shows a degenerate first triangle is accepted; the strict-orientation theorem "
         "C13_fan_apex_sees_all therefore carries 'no side collinear with the apex' as a hypothesis",
@@ -447,6 +458,41 @@ def polygon_cases(rng, per_shape):
     return cases
 
 
+def far_cases(rng, count):
+    """the same polygon families translated far from the origin (2^47 with neighbours, 2^50 isolated): every coordinate,
+    every difference and every product of differences is still exact in f64, so the code's answers must not depend on the
+    translation -- an orientation predicate that multiplies absolute coordinates (shoelace form) loses the sign here"""
+    cases = []
+    cid = 0
+    while len(cases) < count:
+        n = rng.randint(4, 10)
+        fam = rng.choice(["convex", "reflex", "simple", "star"])
+        if fam == "convex":
+            p = convex_polygon(rng, n)
+        elif fam == "reflex":
+            p = reflex_polygon(rng, n, rng.randrange(n))
+        elif fam == "simple":
+            p = two_opt(rng, n)
+        else:
+            p = star_polygon(rng, n)
+        if not p:
+            continue
+        p = rotate(orient(p, rng.random() < 0.5), rng.randrange(n))
+        iso = rng.random() < 0.5
+        T = 2 ** 50 if iso else 2 ** 47
+        sx, sy = rng.choice([(1, 1), (1, -1), (-1, 1), (-1, -1), (1, 0), (0, 1), (-1, 0), (0, -1)])
+        q = [(x + sx * T, y + sy * T) for (x, y) in p]
+        nb = [] if iso else [i for i in range(n) if rng.random() < 0.4]
+        pre, face, spares = build_map(rng, q, 2 * (n - 3), nb, rng.random() < 0.25)
+        for kern in KERNELS:
+            cid += 1
+            meta = {"sig": f"far-{fam}-{kern}", "family": "far-" + fam}
+            if fam == "reflex":
+                meta["reflex_index"] = kern2.reflex_indices(q)
+            cases.append(mk_case(f"far{n}-{cid}", pre, op_line(kern, face[0], spares), meta))
+    return cases
+
+
 def directed_cases():
     """the design-round witnesses"""
     cases = []
@@ -549,6 +595,8 @@ def run(tier, seed):
     parts.append(("directed witnesses (D7 pentagon, unit squares)", hv.campaign(directed_cases(), oracle_c13, max_report=50)))
     parts.append(("polygons: convex / star / reflex at every index / random simple, isolated and embedded",
                   hv.campaign(polygon_cases(rng, per), oracle_c13, max_report=400)))
+    parts.append(("polygons translated by 2^47 / 2^50 (all differences and their products exact in f64)",
+                  hv.campaign(far_cases(rng, 1200 if tier == "quick" else 16000), oracle_c13, max_report=50)))
     parts.append(("refusals: spare counts, undefined vertices, small faces",
                   hv.campaign(refusal_cases(rng, 1500 if tier == "quick" else 20000), oracle_c13, max_report=50)))
     parts.append(("degenerate inputs (outside the guard)",
